@@ -57,6 +57,36 @@ def input_only_through_sorted_set(repo):
     return bad
 
 
+def lean_a10():
+    """Run the Lean 4 kernel on lean/A10.lean: accepted, no sorry, only the three core axioms.  A failure here is a
+    checker error (the lemma does not depend on /repo), never a violation."""
+    import os
+    import re
+    import shutil
+    import subprocess
+    from .. import VERIF
+    path = os.path.join(VERIF, "lean", "A10.lean")
+    exe = shutil.which("lean")
+    if exe is None:
+        return {"ok": False, "detail": "lean not on PATH"}
+    t0 = time.time()
+    try:
+        p = subprocess.run([exe, path], capture_output=True, text=True, timeout=600)
+    except subprocess.TimeoutExpired:
+        return {"ok": False, "detail": "lean timed out"}
+    out = p.stdout + p.stderr
+    src = open(path).read()
+    axioms = set()
+    for m in re.finditer(r"depends on axioms: \[([^\]]*)\]", out):
+        axioms.update(a.strip() for a in m.group(1).split(","))
+    thms = re.findall(r"'(A10\.[A-Za-z_]+)' depends on axioms", out)
+    ok = (p.returncode == 0 and "sorry" not in src and "sorryAx" not in out and "error" not in out
+          and not re.search(r"^\s*(axiom|unsafe|opaque)\b", src, re.M)
+          and axioms <= {"propext", "Classical.choice", "Quot.sound"} and "A10.unique_R" in thms)
+    return {"ok": ok, "theorems": thms, "axioms": sorted(axioms), "seconds": round(time.time() - t0, 2), "back_end": "lean4 kernel",
+            "detail": out[-600:] if not ok else "accepted"}
+
+
 def t_sort_key(repo, specs, r):
     """The real key function equals the hierarchical key specification on valid ids (only when the code has one)."""
     def fn(ctx):
@@ -223,6 +253,15 @@ def tasks(tier):
     for n in (4, 5, 12):
         out.append(PTask("C09/lemma/complete-group-is-contiguous[n=%d]" % n, t_group_contiguous(repo, specs, n), [], deciding=True,
                          replay_kind="compact", replay_payload=rp, settings=st))
+    # bridge from the loop-level vocabulary to the hypotheses of lean/A10.lean (U2, RU, HC); spec-level facts whose
+    # link to the real cell_to_parent / cell_to_children is C06 (parent[..], child-parent[..], complete[..])
+    for r in range(-1, 30):
+        out.append(PTask("C09/bridge/parent-compose[r=%d]" % r, c06.t_parent_compose(repo, specs, r), [lemmas.PARENT], deciding=True,
+                         replay_kind="compact", replay_payload=rp))
+        if r >= 0:
+            out.append(PTask("C09/bridge/ancestor[r=%d]" % r, lemmas.t_ancestor_is_parent(repo, specs, r), [], replay_kind="compact", replay_payload=rp))
+        if r <= 28:
+            out.append(PTask("C09/bridge/has-child[r=%d]" % r, lemmas.t_has_child(repo, specs, r), [], replay_kind="compact", replay_payload=rp))
     out.append(PTask("C09/lemma/key-injective[r=-1]", lemmas.t_key_injective(repo, specs, -1), [kf] if kf else [], deciding=True,
                      replay_kind="compact", replay_payload=rp, timeout_ms=120000))
     return out
@@ -230,9 +269,9 @@ def tasks(tier):
 
 ASSUMPTIONS = BASE_TRUSTED + [
     "A2: sorted(set(X), key=K) returns the K-strictly-increasing enumeration of the element set of X (builtin contract; K injective on valid ids is proved)",
-    "A10 (paper): a group-free antichain with a given coverage is unique, so 'sorted, duplicate-free, no complete sibling group, same coverage (C08)' is the canonical set",
+    "A10 (a group-free antichain with a given coverage is unique) is machine-checked: lean/A10.lean (Lean 4 kernel, no Mathlib, axioms propext / Classical.choice / Quot.sound only) proves it for any levelled forest under hypotheses U1, U2, RU, HC, each of which is an obligation discharged here (bridge/parent-compose, bridge/ancestor, bridge/has-child) or in C06 (parent[res=r,to=r]); what stays on paper is the instantiation itself: reading alpha as the valid ids, res as resolution+1, up as PARENT_ID, R as IS_ANCESTOR, D as 30, and 'A' as the element set of compact's output (DESIGN.md 15.8)",
     "loop level: compact's loops are verified over the abstraction (mathematical ints; RES/FIRSTC/STRIDEF/PAR1/KEYF/REL uninterpreted; callees by contract) with the bit-level lemmas of this check as hypotheses; the bounded native check on the antichain pool is kept as an additional, labelled stand-in and is not counted",
-    "idempotence and 'the one canonical set' follow from the proved facts (sorted by key, pairwise unrelated, no complete group), C08 and A10 on paper; they are additionally exercised by the bounded native check",
+    "idempotence and 'the one canonical set' follow from the proved facts (sorted by key, pairwise unrelated, no complete group), C08 and A10.unique_R; the final assembly of these facts is on paper (DESIGN.md 15.8) and is additionally exercised by the bounded native check",
     "Python ints are 80-bit signed bit-vectors with a proved no-wrap obligation per operation",
 ]
 
@@ -253,6 +292,14 @@ def main(argv=None):
             res.violations.append(("C09/compact/input-only-through-sorted-set: %s" % bad[0], path, "" if rp.get("confirmed") else "no-failing-input-found"))
         else:
             coverage["discharged"] += 1
+        # A10: the Lean kernel re-checks lean/A10.lean on every run
+        lean = lean_a10()
+        coverage["obligations"] += 1
+        coverage["lean"] = lean
+        if lean["ok"]:
+            coverage["discharged"] += 1
+        else:
+            res.errors.append("C09/lemma/A10(lean4): %s" % lean["detail"][:300])
         # bounded stand-in for the loop level
         t0 = time.time()
         rp = native_replay("C09", "compact", {"c09": True, "model": {}})
